@@ -8,6 +8,7 @@ import (
 	"bytes"
 	"fmt"
 	"regexp"
+	"sort"
 	"strings"
 	"unicode"
 	"unicode/utf8"
@@ -425,7 +426,51 @@ func compare(ref, got string, t tol) (diff string, tolerated []string) {
 	if err != nil {
 		return "vuego output does not parse: " + err.Error(), nil
 	}
-	return compareNodes(rn, gn, t)
+	d, tolerated := compareNodes(rn, gn, t)
+	if d == "" {
+		d = controlDiff(ref, got)
+	}
+	return d, tolerated
+}
+
+// controlDiff compares what the HTML parser would blur: the control characters (C0 other than HTML
+// white space, DEL), U+FFFD and bytes that are not UTF-8, as a multiset over the raw outputs.
+// CommonMark 2.3 replaces U+0000 by U+FFFD in text; a parser drops a NUL in body text, so a NUL
+// that reaches the output is compared here, as bytes.
+func controlDiff(ref, got string) string {
+	count := func(s string) map[string]int {
+		m := map[string]int{}
+		for i := 0; i < len(s); {
+			r, n := utf8.DecodeRuneInString(s[i:])
+			switch {
+			case r == utf8.RuneError && n == 1:
+				m[fmt.Sprintf("byte 0x%02x", s[i])]++
+			case r == utf8.RuneError:
+				m["U+FFFD"]++
+			case (r < 0x20 && r != '\t' && r != '\n' && r != '\r' && r != '\f') || r == 0x7f:
+				m[fmt.Sprintf("U+%04X", r)]++
+			}
+			i += n
+		}
+		return m
+	}
+	a, b := count(ref), count(got)
+	var keys []string
+	for k := range a {
+		keys = append(keys, k)
+	}
+	for k := range b {
+		if _, ok := a[k]; !ok {
+			keys = append(keys, k)
+		}
+	}
+	sort.Strings(keys)
+	for _, k := range keys {
+		if a[k] != b[k] {
+			return fmt.Sprintf("control characters (raw output bytes): %s occurs %d times in the reference output and %d times in vuego's", k, a[k], b[k])
+		}
+	}
+	return ""
 }
 
 func compareNodes(rn, gn []*html.Node, t tol) (string, []string) {
@@ -491,6 +536,15 @@ func analyse(src []byte) facts {
 	set := func(s string) { f.classes[s] = true }
 	// where: "text" (inline text), "code" (code span / block), "attr" (destination, title, alt, info)
 	textual := func(seg []byte, where string) {
+		if bytes.IndexByte(seg, 0) >= 0 {
+			set("nul-in-" + where)
+		}
+		if bytes.ContainsAny(seg, "\x01\x1b\x7f") {
+			set("control-char-in-" + where)
+		}
+		if !utf8.Valid(seg) {
+			set("invalid-utf8-in-" + where)
+		}
 		if bytes.Contains(seg, []byte("{{")) {
 			set("mustache-in-" + where)
 		}
@@ -587,6 +641,10 @@ func analyse(src []byte) facts {
 			if len(v.Language(src)) > 0 {
 				set("code-fenced-info")
 			}
+			if v.Info != nil && bytes.IndexByte(v.Info.Segment.Value(src), 0) >= 0 {
+				set("nul-in-attribute-or-html-block")
+				region(fNUL)
+			}
 			if string(v.Language(src)) == "false" {
 				set("string-false-in-bound-attribute")
 				region(fFalse)
@@ -641,6 +699,10 @@ func analyse(src []byte) facts {
 				rawText = append(rawText, v.ClosureLine.Value(src)...)
 			}
 			noteRaw(n, rawText)
+			if bytes.IndexByte(rawText, 0) >= 0 {
+				set("nul-in-attribute-or-html-block")
+				region(fNUL)
+			}
 			if isTagSoup(rawText) {
 				// Markdown text swallowed by an HTML block (a line that consists of one tag starts
 				// one) and containing a literal <: both renderers copy the bytes, what the HTML parser
@@ -703,6 +765,10 @@ func analyse(src []byte) facts {
 				set("string-false-in-bound-attribute")
 				region(fFalse)
 			}
+			if bytes.IndexByte(v.Title, 0) >= 0 {
+				set("nul-in-attribute-or-html-block")
+				region(fNUL)
+			}
 			if len(v.Destination) == 0 {
 				set("empty-destination")
 				region(fEmptyDest)
@@ -719,6 +785,10 @@ func analyse(src []byte) facts {
 			textual(v.Destination, "attr")
 			textual(v.Title, "attr")
 			textual(plain(v), "attr")
+			if bytes.IndexByte(v.Title, 0) >= 0 || bytes.IndexByte(plain(v), 0) >= 0 {
+				set("nul-in-attribute-or-html-block")
+				region(fNUL)
+			}
 			if string(v.Title) == "false" || strings.TrimSpace(string(plain(v))) == "false" {
 				set("string-false-in-bound-attribute")
 				region(fFalse)
